@@ -63,7 +63,12 @@ def literal_parse():
         st.pc += [z3.Length(OLD) >= 2, OLD[0] >= 0, OLD[0] < 128, fnl >= 0, fnl < 256, HL >= 6 + fnl, z3.Length(OLD) >= HL]
         buf = ex.new_buf(st, OLD)
         ex.hooks[('ext', 'datetime.fromtimestamp')] = lambda ex, st, o, a: [(st, E.VExt('datetime', (a[0],)))]
+        VALID = z3.Function('VALID[utf-8]', B, z3.BoolSort())
         for pi, (s, v) in enumerate(r.call(me, [buf])):
+            if isinstance(v, E.Raise) and v.exc.split(':')[0] == 'UnicodeDecodeError':
+                # a rejection, not an acceptance: allowed only for a file name that is not valid UTF-8 (recorded as an observation in DESIGN.md)
+                r.oblige(s, 'rejects-only-a-file-name-that-is-not-utf-8/p%d' % pi, z3.Not(VALID(z3.Extract(OLD, 2, fnl))), v.where)
+                continue
             if isinstance(v, E.Raise):
                 r.oblige(s, 'safety(%s)/p%d' % (v.exc, pi), z3.BoolVal(False), v.where)
                 continue
